@@ -74,7 +74,7 @@ def run_c01(tier):
     # --- call histories, executed in several processes
     cfgp = os.path.join(common.OUT, "MC_Session_%s_%d.cfg" % (tier, pid))
     with open(cfgp, "w") as f:
-        f.write("CONSTANTS\n  MaxLen = %d\n  Wide = %s\n  Lockstep = FALSE\nINIT Init\nNEXT Next\nINVARIANT KeysFunctional\nINVARIANT Printer\nCHECK_DEADLOCK FALSE\n" % (
+        f.write("CONSTANTS\n  MaxLen = %d\n  Wide = %s\n  Lockstep = \"\"\nINIT Init\nNEXT Next\nINVARIANT KeysFunctional\nINVARIANT Printer\nCHECK_DEADLOCK FALSE\n" % (
             3 if tier == "quick" else 4, "FALSE" if tier == "quick" else "TRUE"))
     r = common.run_tlc("MC_Session", cfgp, workers=4 if tier == "quick" else 12, timeout=3600, name="MC_Session_%s" % tier)
     res.add_tlc(r)
@@ -84,18 +84,20 @@ def run_c01(tier):
     hist = os.path.join(common.OUT, "session_%s_%d.ndjson" % (tier, pid))
     nh = common.extract_replay(r["log"], hist)
     os.remove(r["log"])
-    # long histories over two calculators with different settings on the same map (every interleaving, incl. lockstep)
-    with open(cfgp, "w") as f:
-        f.write("CONSTANTS\n  MaxLen = %d\n  Wide = FALSE\n  Lockstep = TRUE\nINIT Init\nNEXT Next\nINVARIANT KeysFunctional\nINVARIANT Printer\nCHECK_DEADLOCK FALSE\n" % (6 if tier == "quick" else 10))
-    r = common.run_tlc("MC_Session", cfgp, workers=4 if tier == "quick" else 12, timeout=3600, name="MC_Session_lock_%s" % tier)
-    res.add_tlc(r)
-    os.remove(cfgp)
-    part = hist + ".lock"
-    nh += common.extract_replay(r["log"], part)
-    os.remove(r["log"])
-    with open(hist, "a") as f:
-        f.write(open(part).read())
-    os.remove(part)
+    # long histories over two calculators with different settings on the same map (every interleaving, incl. lockstep), per mode
+    for lm in ("m2", "m1", "m3", "m4"):
+        with open(cfgp, "w") as f:
+            f.write('CONSTANTS\n  MaxLen = %d\n  Wide = FALSE\n  Lockstep = "%s"\nINIT Init\nNEXT Next\nINVARIANT KeysFunctional\nINVARIANT Printer\nCHECK_DEADLOCK FALSE\n' % (
+                (6 if lm == "m2" else 4) if tier == "quick" else 10, lm))
+        r = common.run_tlc("MC_Session", cfgp, workers=4 if tier == "quick" else 12, timeout=3600, name="MC_Session_lock_%s_%s" % (lm, tier))
+        res.add_tlc(r)
+        os.remove(cfgp)
+        part = hist + ".lock"
+        nh += common.extract_replay(r["log"], part)
+        os.remove(r["log"])
+        with open(hist, "a") as f:
+            f.write(open(part).read())
+        os.remove(part)
     nproc = 3 if tier == "quick" else 8
     trace = os.path.join(common.OUT, "session_trace_%s_%d.ndjson" % (tier, pid))
     with open(trace, "w") as tf:
@@ -126,7 +128,7 @@ def run_c20(tier):
     pid = os.getpid()
     sched = os.path.join(common.OUT, "threads_%s_%d.ndjson" % (tier, pid))
     with open(sched, "w") as sf:
-        for jobs in (1, 2, 3, 4, 5, 6, 7):
+        for jobs in (1, 2, 3, 4, 5, 6, 7, 8, 9, 10):
             for nth in ((2,) if tier == "quick" else (2, 3)):
                 cfgp = os.path.join(common.OUT, "MC_Threads_%d_%d_%s_%d.cfg" % (jobs, nth, tier, pid))
                 with open(cfgp, "w") as f:
